@@ -54,6 +54,8 @@ def synthetic_variants(ty):
         return [{"idx": 0, "name": "Ok", "fields": [{"ty": args[0]}]}, {"idx": 1, "name": "Err", "fields": [{"ty": args[1]}]}]
     if head == "core::cmp::Ordering":
         return [{"idx": 0, "name": "Less", "fields": []}, {"idx": 1, "name": "Equal", "fields": []}, {"idx": 2, "name": "Greater", "fields": []}]
+    if head == "ucd_parse::common::Codepoints":
+        return [{"idx": 0, "name": "Single", "fields": [{"ty": "ucd_parse::common::Codepoint"}]}, {"idx": 1, "name": "Range", "fields": [{"ty": "ucd_parse::common::CodepointRange"}]}]
     if head == CONTROLFLOW:
         return [{"idx": 0, "name": "Continue", "fields": [{"ty": args[1] if len(args) > 1 else "()"}]}, {"idx": 1, "name": "Break", "fields": [{"ty": args[0]}]}]
     return None
@@ -103,3 +105,18 @@ def fresh(prog, ty, name, opaque=()):
         v = a["variants"][0]
         return Adt(head, 0, tuple(fresh(prog, f["ty"], ("f", name, i), opaque) for i, f in enumerate(v["fields"])))
     return Opq("fresh", (ty, name))
+
+
+def fresh_args(prog, st, inputs, opaque=()):
+    """Unconstrained arguments for a function signature; `&mut T` arguments point to a heap cell so
+    that writes through them are possible."""
+    out = []
+    for i, ty in enumerate(inputs):
+        m = _REF.match(ty.strip())
+        if m and m.group(2):
+            hid = ("arg", i)
+            st.heap[hid] = fresh(prog, m.group(3), ("deref", ("arg", i)), opaque)
+            out.append(Ref(("heap", hid, ())))
+        else:
+            out.append(fresh(prog, ty, ("arg", i), opaque))
+    return out
